@@ -70,6 +70,11 @@ CLAIMED = {
         "Static: an accepted placement appends exactly [beat before, value, normalised content] and advances the beat by exactly 1/value (so start beats are prefix sums), a refused one changes nothing and returns False; the gate is 'beat + 1/value <= length' up to a tolerance between 1e-12 and 1e-5 (above float drift, below the smallest gap between distinct totals, so it decides like exact rational arithmetic) or 'length == 0'; remove_last_entry subtracts 1/value of the last entry and drops exactly it; set_meter stores (count, unit) and count/unit for valid units, (0,0) -> 0.0, else MeterFormatError; space_left/value_left/'+'/is_full/__setitem__/place_notes_at/empty match their definitions.",
         "Exactness of acceptance is decided through the tolerance window (assumes < ~10^5 entries per bar), not by exploring histories. Trusted: CPython ast, abstract evaluator + rational functions (variants/c13.py), C09.",
         "DESIGN.md section 2, C13"),
+    "C14": (
+        "None-flow and effect analysis of Track.add_notes by abstract evaluation with the instrument classes inlined and Bar methods recorded; decision tables of the range gate; new-bar rule and pass-through of key/meter; generator evaluation of get_notes; policy-driven evaluation of from_chords; selection discipline of Composition",
+        "Static: a rest (None) reaches place_notes of the last bar with no instrument and with every instrument class, a non-rest is placed only after can_play_notes answered true and raises InstrumentRangeError otherwise; note_in_range is lo <= note <= hi, can_play_notes unwraps containers/lists and requires all notes; a new bar is appended only for an empty track or a full last bar, built from the last bar's key and meter, and the result of place_notes on the last bar is returned; get_notes yields every (beat, value, content) of every bar in order, test_integrity checks all but the last bar; from_chords doubles the value per nesting level, places None as a rest and splits a refused chord into value_left and the remainder; add_track selects exactly the new index, add_note reaches exactly the selected tracks, '+' dispatches on the operand kind.",
+        "No-loss/no-reorder over arbitrary add sequences follows from the per-call rules by induction and is not explored. Trusted: CPython ast, abstract evaluator (variants/c14.py), C13.",
+        "DESIGN.md section 2, C14"),
     "C06": (
         "offset-domain abstract interpretation of every chord builder (interval constructors summarised by their C02 post-condition) against a meaning-keyed chord-theory oracle; table agreement; abstract evaluation of the shorthand parser on root shapes x keys, aliases, slash, polychord, NC, list and malformed classes",
         "Static: each of the shorthand builders (incl. the lambda) yields, for 7 root letters x arbitrary accidentals, exactly the (letter, semitone) list its meaning prescribes; chord_shorthand and chord_shorthand_meaning have equal key sets; from_shorthand maps every key, every min/mi/-/maj/ma alias spelling, slash basses, polychords, NC and list input to the right builder result and rejects unknown suffixes / bad roots / bad basses with the documented errors.",
